@@ -4,7 +4,10 @@
 # runs the checks against it through VERIF_REPO, removes the worktree.
 P="$1"; shift
 WT=/tmp/wt/try_$$
-git -C /repo worktree add -q --detach $WT HEAD || exit 2
+BASE=HEAD
+M="$(dirname "$P")/meta.json"
+if [ -f "$M" ]; then B=$(python3 -c "import json,sys;print(json.load(open(sys.argv[1])).get('base_commit',''))" "$M" 2>/dev/null); [ -n "$B" ] && BASE=$B; fi
+git -C /repo worktree add -q --detach $WT $BASE || exit 2
 if ! git -C $WT apply --check "$P" 2>/dev/null; then echo "PATCH DOES NOT APPLY: $P"; git -C /repo worktree remove --force $WT; exit 3; fi
 git -C $WT apply "$P"
 for id in "$@"; do
